@@ -573,4 +573,64 @@ theorem den_pouIndexP (norm : String → String) (r : PouNames)
 
 end Pou
 
+section UsingArgs
+variable {σ : Type} [DecidableEq σ]
+
+/-- First-match lookups do not see the removal of later duplicates. -/
+theorem find?_dedupFrom (p : σ → Bool) (acc rs : List σ) :
+    (dedupFrom acc rs).find? p = (acc ++ rs).find? p := by
+  induction rs generalizing acc with
+  | nil => simp [dedupFrom]
+  | cons r rs ih =>
+    by_cases h : r ∈ acc
+    · simp only [dedupFrom, h, if_true]
+      rw [ih acc, List.find?_append, List.find?_append]
+      cases hf : acc.find? p with
+      | some x => simp
+      | none =>
+        have hr : p r = false := by
+          have := List.find?_eq_none.mp hf r h
+          simpa using this
+        simp [hr]
+    · simp only [dedupFrom, h, if_false]
+      rw [ih (acc ++ [r])]
+      simp [List.append_assoc]
+
+theorem find?_dedupFirstSeen (p : σ → Bool) (rs : List σ) :
+    (dedupFirstSeen rs).find? p = rs.find? p := by
+  simpa [dedupFirstSeen] using find?_dedupFrom p [] rs
+
+end UsingArgs
+
+section NamedArgs
+variable {σ ε ν : Type}
+
+theorem den_readSlotsK_state {α : Type} (proj : α → σ) (s : σ) (n i : Nat)
+    (k : List (Option ν) → Prog Unit Nat ν α) (m : AMap Unit Nat ν)
+    (hk : ∀ vs m', proj (den (k vs) m').1 = s) :
+    proj (den (readSlotsK n i k) m).1 = s := by
+  induction n generalizing i k m with
+  | zero => simpa [readSlotsK] using hk [] m
+  | succ n ih =>
+    simp only [readSlotsK, den]
+    exact ih (i + 1) _ m (fun vs m' => hk _ m')
+
+theorem den_bindNamedArgsP_state (count : Nat) (args : List (NArg σ ε ν)) (s : σ)
+    (m : AMap Unit Nat ν) :
+    (den (bindNamedArgsP count args s) m).1.2 = effectsInWrittenOrder args s := by
+  induction args generalizing s m with
+  | nil =>
+    simp only [bindNamedArgsP, effectsInWrittenOrder]
+    exact den_readSlotsK_state (fun r : Except ε (List (Option ν)) × σ => r.2) s count 0 _ m
+      (fun vs m' => by simp [den])
+  | cons a rest ih =>
+    simp only [bindNamedArgsP, effectsInWrittenOrder]
+    cases h : a.eval s with
+    | mk r s' =>
+      cases r with
+      | error e => simp [den]
+      | ok v => simp only [den]; exact ih s' _
+
+end NamedArgs
+
 end TrustVerif.C05
